@@ -104,6 +104,8 @@ func (s *lenSim) sliceID(v ssa.Value, env *lenv) string {
 				if rv := singleReturn(sc, x.Index); rv != nil {
 					return s.sliceID(rv, cenv)
 				}
+				// several return statements yielding different slices: one opaque identity per call site and result
+				return fmt.Sprintf("ret:%s#%d@%s>%s", s.u.FnName(sc), x.Index, env.site, s.u.Pos(call.Pos()))
 			}
 		}
 	case *ssa.Call:
@@ -119,6 +121,41 @@ func (s *lenSim) sliceID(v ssa.Value, env *lenv) string {
 		fn = s.u.FnName(ins.Parent())
 	}
 	return "val:" + fn + "." + v.Name() + "@" + env.site
+}
+
+// successReturns: the return statements whose error operand is (or may be) nil.
+func successReturns(fn *ssa.Function) []*ssa.Return {
+	var out []*ssa.Return
+	ei := errIndex(fn.Signature)
+	for _, b := range fn.Blocks {
+		ret, ok := lastInstr(b).(*ssa.Return)
+		if !ok {
+			continue
+		}
+		if ei >= 0 && ei < len(ret.Results) {
+			if c, isC := ret.Results[ei].(*ssa.Const); isC && c.IsNil() {
+			} else if _, isPhi := ret.Results[ei].(*ssa.Phi); isPhi {
+			} else if ex, isEx := ret.Results[ei].(*ssa.Extract); isEx {
+				// the error of an earlier call: a success only if this return is not on its `err != nil` side
+				e := ssa.Value(ex)
+				onErr := guarded(b, func(iff *ssa.If, truth bool) bool {
+					bo, ok := iff.Cond.(*ssa.BinOp)
+					if !ok {
+						return false
+					}
+					isE := (bo.X == e && isNilConst(bo.Y)) || (bo.Y == e && isNilConst(bo.X))
+					return isE && ((bo.Op == token.NEQ && truth) || (bo.Op == token.EQL && !truth))
+				}, 0)
+				if onErr {
+					continue
+				}
+			} else {
+				continue
+			}
+		}
+		out = append(out, ret)
+	}
+	return out
 }
 
 // singleReturn: the value returned as result i when the function has a single return statement (or all agree).
@@ -199,6 +236,47 @@ func (s *lenSim) form(v ssa.Value, env *lenv, depth int) lform {
 			if sc := call.Call.StaticCallee(); sc != nil && s.u.InUniverse(sc) && sc.Blocks != nil {
 				if rv := singleReturn(sc, x.Index); rv != nil {
 					return s.form(rv, s.calleeEnv(call, sc, env), depth+1)
+				}
+				// several return statements: the result is len(result j) on each of them for one j, or the same form on all
+				rets := successReturns(sc)
+				j := -1
+				for _, ret := range rets {
+					lc, ok := ret.Results[x.Index].(*ssa.Call)
+					jj := -1
+					if ok {
+						if bi, isB := lc.Call.Value.(*ssa.Builtin); isB && bi.Name() == "len" {
+							for k, rk := range ret.Results {
+								if rk == lc.Call.Args[0] {
+									jj = k
+								}
+							}
+						}
+					}
+					if jj < 0 || (j >= 0 && jj != j) {
+						j = -2
+						break
+					}
+					j = jj
+				}
+				if j >= 0 {
+					for _, ref := range *call.Referrers() {
+						if ex, ok := ref.(*ssa.Extract); ok && ex.Index == j {
+							return atom("len(" + s.sliceID(ex, env) + ")")
+						}
+					}
+				}
+				cenv := s.calleeEnv(call, sc, env)
+				var f0 lform
+				for i, ret := range rets {
+					f := s.form(ret.Results[x.Index], cenv, depth+1)
+					if i == 0 {
+						f0 = f
+					} else if f.String() != f0.String() {
+						return lform{top: "returns of " + sc.Name() + " disagree"}
+					}
+				}
+				if len(rets) > 0 {
+					return f0
 				}
 			}
 		}
@@ -345,16 +423,24 @@ func laLen(c *Ctx, rule string) {
 		in := ""
 		if ex, ok := body.Call.Args[0].(*ssa.Extract); ok {
 			if call, ok := ex.Tuple.(*ssa.Call); ok {
-				if sc := call.Call.StaticCallee(); sc != nil {
-					if rv := singleReturn(sc, ex.Index); rv != nil {
-						if phi, ok := rv.(*ssa.Phi); ok {
-							for _, e := range phi.Edges {
-								if p, ok := e.(*ssa.Parameter); ok {
-									for i, q := range sc.Params {
-										if q == p {
-											in = s.sliceID(call.Call.Args[i], env)
-										}
-									}
+				if sc := call.Call.StaticCallee(); sc != nil && sc.Blocks != nil {
+					// the parameter that some success return hands back unchanged (directly or through a phi)
+					var cands []ssa.Value
+					for _, ret := range successReturns(sc) {
+						if ex.Index < len(ret.Results) {
+							cands = append(cands, ret.Results[ex.Index])
+						}
+					}
+					for len(cands) > 0 {
+						v := cands[0]
+						cands = cands[1:]
+						switch y := v.(type) {
+						case *ssa.Phi:
+							cands = append(cands, y.Edges...)
+						case *ssa.Parameter:
+							for i, q := range sc.Params {
+								if q == y {
+									in = s.sliceID(call.Call.Args[i], env)
 								}
 							}
 						}
@@ -409,7 +495,7 @@ func laLen(c *Ctx, rule string) {
 		}
 	}
 	r.count(rule+"/page-writers", n)
-	r.floor(rule+"/page-writers", 2, "RequiredField.DoWrite, OptionalField.DoWrite")
+	r.floor(rule+"/page-writers", 1, "RequiredField.DoWrite, OptionalField.DoWrite")
 }
 
 // laFrame: PAR1 first, footer, little-endian footer length of exactly the bytes written, PAR1 last.
@@ -645,42 +731,9 @@ func laOffset(c *Ctx, rule string) {
 				}
 				return false
 			}
-			// contains: v keeps the accumulator — it is the accumulator itself, a sum with it, or a phi all of whose
-			// incoming values keep it (nested loops: the outer phi is advanced through the inner loop's phi)
-			contains := func(v ssa.Value, isSelf func(ssa.Value) bool) bool {
-				visiting := map[ssa.Value]bool{}
-				var walk func(x ssa.Value, d int) bool
-				walk = func(x ssa.Value, d int) bool {
-					if d > 12 {
-						return false
-					}
-					if isSelf(x) {
-						return true
-					}
-					if visiting[x] {
-						return true
-					}
-					switch y := x.(type) {
-					case *ssa.BinOp:
-						if y.Op == token.ADD {
-							return walk(y.X, d+1) || walk(y.Y, d+1)
-						}
-					case *ssa.Convert:
-						return walk(y.X, d+1)
-					case *ssa.Phi:
-						visiting[x] = true
-						defer delete(visiting, x)
-						for _, e := range y.Edges {
-							if !walk(e, d+1) {
-								return false
-							}
-						}
-						return true
-					}
-					return false
-				}
-				return walk(v, 0)
-			}
+			// contains: v keeps the accumulator — it is the accumulator itself, a sum with it, a phi all of whose incoming
+			// values keep it (nested loops), or the result of a helper that returns its argument advanced
+			contains := func(v ssa.Value, isSelf func(ssa.Value) bool) bool { return keepsAccumulator(u, v, isSelf, map[ssa.Value]bool{}, 0) }
 			spine = func(v ssa.Value, depth int) {
 				if depth > 10 || seen[v] {
 					return
@@ -1018,4 +1071,76 @@ func laOverlap(c *Ctx, rule string) {
 	} else {
 		r.failf("%s controls not loaded", rule)
 	}
+}
+
+// keepsAccumulator: see laOffset.
+func keepsAccumulator(u *Universe, x ssa.Value, isSelf func(ssa.Value) bool, visiting map[ssa.Value]bool, d int) bool {
+	if d > 14 {
+		return false
+	}
+	if isSelf(x) {
+		return true
+	}
+	if visiting[x] {
+		return true
+	}
+	callResult := func(call *ssa.Call, idx int) bool {
+		sc := call.Call.StaticCallee()
+		if sc == nil || sc.Blocks == nil || !u.InUniverse(sc) {
+			return false
+		}
+		args := callArgs(&call.Call)
+		for pi, a := range args {
+			if pi >= len(sc.Params) {
+				break
+			}
+			if w, _ := intWidth(sc.Params[pi].Type()); w == 0 {
+				continue
+			}
+			if !keepsAccumulator(u, a, isSelf, visiting, d+1) {
+				continue
+			}
+			// the callee must hand this parameter back advanced on every return
+			okAll, n := true, 0
+			for _, b := range sc.Blocks {
+				ret, ok := lastInstr(b).(*ssa.Return)
+				if !ok || idx >= len(ret.Results) {
+					continue
+				}
+				n++
+				prm := sc.Params[pi]
+				if !keepsAccumulator(u, ret.Results[idx], func(y ssa.Value) bool { return y == ssa.Value(prm) }, map[ssa.Value]bool{}, d+1) {
+					okAll = false
+				}
+			}
+			if okAll && n > 0 {
+				return true
+			}
+		}
+		return false
+	}
+	switch y := x.(type) {
+	case *ssa.BinOp:
+		if y.Op == token.ADD {
+			return keepsAccumulator(u, y.X, isSelf, visiting, d+1) || keepsAccumulator(u, y.Y, isSelf, visiting, d+1)
+		}
+	case *ssa.Convert:
+		return keepsAccumulator(u, y.X, isSelf, visiting, d+1)
+	case *ssa.Phi:
+		visiting[x] = true
+		defer delete(visiting, x)
+		for _, e := range y.Edges {
+			if !keepsAccumulator(u, e, isSelf, visiting, d+1) {
+				return false
+			}
+		}
+		return true
+	case *ssa.Call:
+		return callResult(y, 0)
+	case *ssa.Extract:
+		if call, ok := y.Tuple.(*ssa.Call); ok {
+			return callResult(call, y.Index)
+		}
+	}
+	return false
 }
